@@ -92,6 +92,10 @@ class OccupancyEvent(general._Event):
         # If data is passed in as an int then it needs to be decoded into
         # various flags and stored as an EventData named tuple
         if isinstance(set_data, int):
+            if set_data < 0 or set_data > 0b1111:
+                raise ValueError(
+                    "OccupancyEvent 'data' as an int must be in the range 0..15"
+                )
             # Bit 0: "movement detected" = 1, "movement not detected" = 0
             movement = set_data & 0b0001 == 0b0001
 
